@@ -457,6 +457,7 @@ func (e *Engine) CheckAll() {
 				}
 			}
 		}
+		e.rpcCheck(n)
 		// the Lean spec (Abs.at) must agree with the Go oracle state as well
 		if n.name == "src" && e.drv != nil {
 			for i := 0; i < h; i++ {
